@@ -115,6 +115,17 @@ CHECKS = {
          "TLC transition tours replayed with restart before the audit + crash-point enumeration per mutating fs call",
          "bolt commit internals and the OS page cache are not enumerable: bolt crash points are not covered in the quick tier; "
          "three crash windows of the fs backends are listed known findings (F17, F24, F25)"),
+ "C07": ("model_checking",
+         "Concurrent histories are recorded from the real handler (2-4 clients x 12 ops on 2 keys: put/get/head/delete/copy/list, "
+         "versioned puts and reads by id, concurrent part uploads and completes; every slow-uploader and slow-reader scenario "
+         "built from gated request bodies and response writers; thorough: up to 16 clients, more seeds) on every backend incl. "
+         "real directories, ordered by one atomic counter. TLC (spec/TraceConc.tla) searches for a linearization: silent Lin "
+         "steps apply S3!Step, copy is two steps, every reply (body identity, ETag, length, version id, listing ETags) must "
+         "match, and the quiescent final state must equal the model's (no lost update). Histories of <=4 clients are decided "
+         "exactly (breadth-first); larger ones by first-witness search under the Go race detector.",
+         "trace validation with linearization search by TLC; race/deadlock clause observed (Go race detector, deadlines)",
+         "data races and deadlocks are observations made while recording, not model-checked; schedules are those the Go "
+         "scheduler and the gates produce, not all interleavings"),
 }
 
 NOT_YET = {}
